@@ -12,7 +12,7 @@ ID = "C03"
 MODULES = ["IoraModel.Props.C03"]
 DETSCHED = os.path.join(VERIF, "harness", "detsched", "detsched.cpp")
 ANCHOR_FILES = ["include/iora/network/transport_impl.hpp", "include/iora/network/transport.hpp", "include/iora/network/transport_types.hpp"]
-OBLIGATIONS_ALL = [
+OBLIGATIONS = [
     {"id": "C03_T1", "theorem": "Iora.C03.T1_stream", "kind": "proved",
      "statement": "every disciplined step sequence: out ++ inFlightFlush ++ buf ++ pendingCallback = accepted, and = arrived when no chunk was dropped"},
     {"id": "C03_T1_recv", "theorem": "Iora.C03.T1_out_prefix", "kind": "proved",
@@ -24,7 +24,9 @@ OBLIGATIONS_ALL = [
     {"id": "C03_T4", "theorem": "Iora.C03.T4_disabled_silent", "kind": "proved",
      "statement": "a chunk arriving in Disabled mode changes nothing and produces no output"},
     {"id": "C03_T5_sticky", "theorem": "Iora.C03.T5_overflow_sticky", "kind": "proved",
-     "statement": "overflow is never cleared while the buffer exists, and a receive on an overflowed empty buffer answers BufferOverflow"},
+     "statement": "no step (of any sequence, disciplined or not) clears overflow while the buffer exists"},
+    {"id": "C03_T5_reported", "theorem": "Iora.C03.T5_overflow_reported", "kind": "proved",
+     "statement": "a receive entered on an overflowed, drained buffer answers BufferOverflow (before PeerClosed)"},
     {"id": "C03_T5_nogap", "theorem": "Iora.C03.T5_no_post_gap_bytes", "kind": "proved",
      "statement": "no chunk is ever appended to the sync buffer after a chunk was dropped (true of the repaired handler, F15)"},
     {"id": "C03_T6", "theorem": "Iora.C03.T6_no_lost_wakeup", "kind": "proved",
@@ -35,7 +37,6 @@ OBLIGATIONS_ALL = [
      "statement": "the regenerated lock/notify skeleton has the facts the model is instantiated from (decide)"},
 ]
 
-OBLIGATIONS = [o for o in OBLIGATIONS_ALL if o["id"] == "C03_skel"]   # TEMP
 SIZES = [0, 1, 2, 3, 5, 10, 16, 64, 1000, 65535, 65536, 70000, 1048576]
 
 
@@ -448,7 +449,7 @@ def run(ctx: Ctx):
     if ok_build:
         ctx.audit(MODULES, OBLIGATIONS)
         if not quick:
-            ctx.leanchecker(MODULES + ["IoraModel.Lemmas.SyncRecv", "IoraModel.Model.SyncRecv", "IoraModel.Model.TsyncFacts", "IoraModel.Gen.TsyncSkel"])
+            ctx.leanchecker(MODULES + ["IoraModel.Lemmas.SyncRecv", "IoraModel.Model.SyncRecv", "IoraModel.Model.SyncRecvGen", "IoraModel.Model.TsyncFacts", "IoraModel.Gen.TsyncSkel"])
     else:
         ctx.cov["obligations"] = len(OBLIGATIONS)
     hb = ctx.build_harness("harness/c03_syncrecv.cpp", sanitize=True, flags=[DETSCHED])
